@@ -862,3 +862,170 @@ def c06(a):
     v.assumptions += ["'never hangs' is decided as 'returned' on everything explored (a hang would stall the check = tool error, not silently pass)",
                       "stack bound read against the platform default main-thread stack of the recorder process"]
     return v.finish()
+
+
+CALC_V = __import__("re").compile(r'^<<"V", (\d+), (\d+), "([^"]*)", "([^"]*)">>', __import__("re").M)
+
+
+def judge_calc(trace, tag):
+    cfg = os.path.join(SPEC, "Judge_Calc.cfg")
+    res = vlib.run_tlc("Judge_Calc", cfg, tag, workers=1, timeout=3000, env_extra={"TRACE": trace}, heap="4g")
+    vlib.tlc_or_die(res, f"Judge_Calc on {trace}")
+    if res.post_failed:
+        raise vlib.ToolError("Judge_Calc did not consume every session")
+    return res, [(int(m.group(1)), int(m.group(2)), m.group(3), m.group(4)) for m in CALC_V.finditer(res.out)]
+
+
+def calc_pipeline(v, pid, tier, alphabet, max_steps, families, acts, what, n_per_family, mc_diff=False):
+    """Sessions: direction A = MC_Exmex histories, direction B = seeded script families; all through `recorder calc`
+    and Judge_Calc (trace validation against Exmex.tla).  acts: the actions whose verdicts concern this property."""
+    q = tier == "quick"
+    traces = []
+    if mc_diff:
+        cfg = work(pid, "mcdiff.cfg")
+        write_cfg(cfg, {"MaxUn": 1 if q else 2, "Stats": True}, invariants=["RulesOk"])
+        res = vlib.run_tlc("MC_Diff", cfg, f"{pid}-mcdiff", workers=16, timeout=3000, heap="6g")
+        if not res.ok:
+            print(res.out[-3000:])
+            raise vlib.ToolError(f"MC_Diff: {res.violated or res.error}: the rule transcription is not the mathematical derivative - spec bug")
+        v.add_tlc(res, "MC_Diff")
+        import re as _re
+        m = _re.search(r'"STATS", "trees", (\d+), "conclusive-yes", (\d+), "no", (\d+)', res.out)
+        v.notes.append(f"MC_Diff: the rule table + inner/outer chain structure of partial.rs (PartialImpl.D) satisfies IsPartial on every "
+                       f"small tree over the base points (x=0, y=1, z=5/4), first and second order; "
+                       f"{m.group(2) if m else '?'} of {m.group(1) if m else '?'} one-unary trees are conclusive, none refuted; "
+                       "operators without rule fail exactly when they occur")
+    if alphabet:
+        tag = f"{pid}/mcexmex"
+        cfg = work(tag + ".cfg")
+        write_cfg(cfg, {"MaxSteps": max_steps, "Emit": True, "Alphabet": ("=", "{" + ", ".join(f'"{a}"' for a in alphabet) + "}")},
+                  invariants=["Total", "VarsSorted", "VarsFromSeeds", "EmitCases"], props=["AppendOnly"])
+        res, summ, obsp = pipeline.gen_replay_shard("MC_Exmex", cfg, tag, ["calc"], workers=8, timeout=3000)
+        if res.violated or res.error or "violated" in res.out:
+            print(res.out[-3000:])
+            raise vlib.ToolError(f"MC_Exmex: {res.violated or res.error} - session spec inconsistent (spec bug)")
+        v.add_tlc(res, f"MC_Exmex[{'+'.join(alphabet)}, <= {max_steps} steps]")
+        v.cov["traces_validated_against_impl"] += summ["cases"]
+        v.cov["evaluations"] += summ["runs"]
+        traces += [(p, "A") for p in pipeline.split_ndjson(obsp, 1500, header=True)]
+        v.notes.append(f"direction A: all {summ['cases']} histories of <= {max_steps} calls over the action alphabet {alphabet} on 6 seeds "
+                       "(overlapping/disjoint variables, constants 0 and 1, flat and deep) replayed on the real library")
+    jobs = []
+    for fam in families:
+        for k in range(4):
+            tag = f"{pid}/calc-{fam}-{k}"
+            jobs.append(lambda tag=tag, fam=fam, k=k: (tag,) + pipeline.fuzz_replay(
+                tag, ["fuzz-calc", "--family", fam, "--n", str(n_per_family // 4), "--stream", str(k)], [], mode="calc"))
+    nb = 0
+    for tag, summ, obsp in parallel(jobs):
+        if summ.get("crashed"):
+            v.violation({"pipeline": tag, "detail": summ}, f"{what}: the library aborted the recorder process in {tag}")
+            continue
+        nb += summ["cases"]
+        v.cov["traces_validated_against_impl"] += summ["cases"]
+        v.cov["evaluations"] += summ["runs"]
+        # fuzz_replay prepends an empty table line; the generator's own table line follows: drop the empty one
+        lines = open(obsp).read().splitlines(True)
+        open(obsp, "w").writelines(lines[1:])
+        traces.append((obsp, "B"))
+    if families:
+        v.notes.append(f"direction B: {nb} seeded sessions of the families {list(families)} (3-14 calls each)")
+    stats = {}
+    jres = parallel([(lambda p=p: (p, judge_calc(p, f"{pid}-jcalc-{os.path.basename(p)}"))) for p, _ in traces], 12)
+    for p, (r, verdicts) in jres:
+        v.add_tlc(r, f"Judge_Calc[{os.path.basename(p)}]")
+        recs = None
+        for case, k, act, verdict in verdicts:
+            if act not in acts:
+                continue
+            key = "ok" if verdict == "ok" else ("inconclusive" if verdict.startswith("inconclusive") else "bad")
+            stats.setdefault(act, {"ok": 0, "inconclusive": 0, "bad": 0})[key] += 1
+            if key != "bad":
+                continue
+            if recs is None:
+                recs = {}
+                for line in open(p):
+                    qq = json.loads(line)
+                    if "case" in qq:
+                        recs[qq["case"]] = qq
+            r0 = recs.get(case, {})
+            seeds = [vlib.uncps(x.get("text_in", [])) for x in r0.get("seeds", [])]
+            hist = [{kk: vv for kk, vv in st.items() if kk != "res"} for st in r0.get("steps", [])[:k]]
+            if verdict == "bad:vars-unused-variable-lost":
+                # known finding F8 (open): identified by its call sites - variable lists rebuilt from occurring nodes
+                if act in ("reparse", "serde", "subs"):
+                    v.known_finding("F8", "a listed variable that no longer occurs (derivative of `x`, `y*0`, `0/(x+1)`) is dropped when the "
+                                          "expression is printed and parsed back / serialised (C12) or substituted (C11)")
+                    continue
+            v.violation({"seeds": seeds, "history": hist, "step": k, "observed": (r0.get("steps") or [{}])[k - 1].get("res") if k else None},
+                        f"{what}: seeds {seeds} step {k} {act}: {verdict}")
+    v.cov["steps_judged"] = stats
+    tot = sum(x["ok"] + x["bad"] for x in stats.values())
+    v.cov["distinct_nontrivial"] = tot
+    return stats
+
+
+def finish_calc(v, rule, sample):
+    v.cov["rule"] = rule
+    v.cov["exhaustive"] = True
+    v.sample(sample)
+    v.assumptions += ["values are compared in GF(32749) with free function symbols (Field.tla) at three points, derivatives as truncated "
+                      "power series (Jets.tla); a wrong result escapes only with probability ~1e-4 per point",
+                      "the symbolic data type Sym folds literals exactly like floats do for the is_zero/is_one shortcuts"]
+    return v.finish()
+
+
+@register("C10")
+def c10(a):
+    v = Verdict("C10", a.tier, "model_checking")
+    q = a.tier == "quick"
+    calc_pipeline(v, "C10", a.tier, ["op", "std", "conv"], 1 if q else 2, ["ops", "mixed"], {"op_un", "op_bin", "std"},
+                  "operator application is not a homomorphism", 400 if q else 6000)
+    return finish_calc(v, "all one-call (quick) / two-call (thorough) histories over the operator alphabet + random histories; "
+                          "non-trivial = conclusive verdicts (ok or bad)", {"history": ["std mul 3 4  (0 * 1)", "op_bin 1 5 '^'"]})
+
+
+@register("C11")
+def c11(a):
+    v = Verdict("C11", a.tier, "model_checking")
+    q = a.tier == "quick"
+    calc_pipeline(v, "C11", a.tier, ["subs", "conv"], 2 if q else 3, ["subs", "mixed"], {"subs"},
+                  "substitution is not simultaneous / loses variables", 400 if q else 6000)
+    return finish_calc(v, "all histories of <= 2/3 substitutions+conversions over 5 maps (empty, renaming, swap-like, constant, "
+                          "self-referential) + random histories", {"history": ["subs 2 {x -> entry 5 (x-z), z -> entry 1 (x)}"]})
+
+
+@register("C12")
+def c12(a):
+    v = Verdict("C12", a.tier, "model_checking")
+    q = a.tier == "quick"
+    calc_pipeline(v, "C12", a.tier, ["print", "op", "conv"] if q else ["print", "op", "std", "subs", "conv", "diff"], 2,
+                  ["print", "mixed", "advnames"], {"reparse", "serde", "seed"}, "a printed expression does not parse back to the same expression",
+                  400 if q else 6000)
+    return finish_calc(v, "all histories of <= 2 calls ending in or containing unparse->parse / serde round trips + random histories",
+                       {"history": ["op_bin 1 2 '/'", "reparse 7"]})
+
+
+@register("C09")
+def c09(a):
+    v = Verdict("C09", a.tier, "model_checking")
+    q = a.tier == "quick"
+    calc_pipeline(v, "C09", a.tier, ["diff", "conv"], 1 if q else 2, ["poly", "typed"], {"partial", "partial_nth", "partial_iter"},
+                  "differentiation bookkeeping", 240 if q else 4000, mc_diff=True)
+    v.notes.append("index >= number of variables must be an error with no partial_deepex hook event before it; the derivative keeps the "
+                   "variable list; partial_nth / partial_iter are compared with the iterated rule transcription D (so n-fold = repeated, "
+                   "iterated = sequential, order zero = identity, and mixed partials agree because D commutes as series)")
+    return finish_calc(v, "all index sequences of the enumerated alphabet + random sequences of length 0..4 with out-of-range entries",
+                       {"steps": ["partial_iter ks=[1,0]", "partial_nth k=0 n=2"]})
+
+
+@register("C05")
+def c05(a):
+    v = Verdict("C05", a.tier, "model_checking")
+    q = a.tier == "quick"
+    calc_pipeline(v, "C05", a.tier, ["diff"], 1, ["typed", "poly"], {"partial", "partial_nth", "partial_iter"},
+                  "a partial derivative is not the mathematical derivative", 600 if q else 12000, mc_diff=True)
+    v.assumptions.append("floats: partial.rs is generic in T and keys only on operator names; the exact-arithmetic verdict transfers to "
+                         "f32/f64 up to rounding by that argument, not by a float oracle")
+    return finish_calc(v, "programs typed by base point (every function argument shifted onto the function's expansion point) over + - * / ^ "
+                          "and 18 elementary functions, first and second order, flat/deep/converted", {"program": "sin(x*y + 1/2 - 1/2) * exp(x)"})
